@@ -69,8 +69,9 @@ def _enclosing(node: ast.AST) -> tuple[str | None, str | None]:
 
 
 def callee_kind(m: core.Mod, cls: str | None, call: ast.Call) -> tuple[str | None, str]:
-    d = dotted(call.func)
-    name = d or ("?." + call.func.attr if isinstance(call.func, ast.Attribute) else "?")
+    fnode = core.strip_casts(call.func)
+    d = dotted(fnode)
+    name = d or ("?." + fnode.attr if isinstance(fnode, ast.Attribute) else "?")
     last = name.rsplit(".", 1)[-1]
     imps = m.imports()
     if last == "create" and (d or "").split(".")[0] in ("cls", "self", "DateTime"):
